@@ -253,7 +253,8 @@ def translate(path: StrPath, workdir: StrPath = ".") -> Path:
     path = coerce_path(path).normpath()
     if not path.isabs():
         workdir = coerce_path(workdir).normpath()
-        path = workdir / path
+        # Joining can bring `..` components of `path` next to those of `workdir`.
+        path = (workdir / path).normpath()
         if not workdir.isabs():
             root = get_stepup_root()
             here = Path(os.getenv("HERE", Path(".").relpath(root)))
